@@ -100,16 +100,21 @@ type caseSpec struct {
 	ops    []Sx
 	txids  []int
 	maxn   int
+	report bool
 }
 
 func bad(msg string) { panic("hxlib: bad case: " + msg) }
 
 func parseCase(c Sx) *caseSpec {
 	top := AsList(c)
-	if len(top) != 2 {
+	if len(top) != 2 && len(top) != 3 {
 		bad("top")
 	}
 	cs := &caseSpec{byID: map[int]*blockSpec{}}
+	// (BLOCKS OPS 1): report the recorded deviations (known findings) as oracle failures.
+	// bin/check compares a case with the model only when its oracle is silent, so the
+	// generator sets the flag on one case in three and the others keep the tie to the model.
+	cs.report = len(top) == 3 && AsInt(top[2]) == 1
 	txset := map[int]bool{}
 	for _, bsx := range AsList(top[0]) {
 		f := AsList(bsx)
@@ -779,6 +784,9 @@ func run(c Sx) Result {
 		return 9
 	}
 	sort.SliceStable(oracleKnown, func(i, j int) bool { return prio(oracleKnown[i]) < prio(oracleKnown[j]) })
+	if !cs.report {
+		oracleKnown = nil // still visible as tags
+	}
 	res.Oracle = strings.Join(append(oracleReal, oracleKnown...), " | ")
 	res.NonTrivial = reorgs > 0 && lookups > 0
 	res.Tags = dedup(res.Tags)
